@@ -25,6 +25,9 @@ def cfgOfArgs (kv : List (String × String)) : Cfg :=
     incFailClean := boolOf (arg kv "incFailClean"),
     noEmptyLive := boolOf (arg kv "noEmptyLive"),
     arekAllFalse := boolOf (arg kv "arekAllFalse"),
+    countMissingOk := boolOf (arg kv "countMissingOk"),
+    setErrSingle := boolOf (arg kv "setErrSingle"),
+    saveReleasesImmediate := boolOf (arg kv "saveReleasesImmediate"),
     encoding := if arg kv "encoding" == "typeTagged" then .typeTagged else .gobOmitZero }
 
 def ieee : Arith where
@@ -198,7 +201,7 @@ def join (hd : String) (l : List String) : String := " ".intercalate (hd :: l)
 
 def showResp (ck : Clock) (verb : String) : Resp → String
   | .err c => "err:" ++ c
-  | .setErr e => "set ERR:" ++ e
+  | .setErr e dup => "set ERR:" ++ e ++ (if dup then " +" else "")
   | .sts l => join verb (l.map showSt)
   | .recs l => join verb (l.map fun o => match o with | none => "-" | some r => showRec ck r)
   | .kvs l => join verb (l.map fun p => p.1 ++ "=" ++ showRec ck p.2)
@@ -226,6 +229,8 @@ def tagId : Tag → String
   | .inflightReuse => "failed-increment-leaves-trace"
   | .emptyLive => "empty-swamp-materialised"
   | .arekPrecondition => "arekeysexist-missing-swamp-error"
+  | .countPrecondition => "count-missing-swamp-error"
+  | .setErrDup => "set-error-entry-duplicated"
   | .zeroLikeDropped => "zero-like-reloads-void"
 
 /-! ### stepping -/
@@ -247,7 +252,7 @@ structure DState where
   opNo : Nat := 0
   inCase : Bool := false
 
-def kindOf (s : String) : Kind := if s.startsWith "mem" then .mem else .per
+def kindOf (s : String) : Kind := if s.startsWith "mem" then .mem else if s.startsWith "p0" then .p0 else .p1
 
 def stepLine (d : DState) (line : String) : DState × String :=
   let f := line.splitOn " "
@@ -277,7 +282,7 @@ def stepLine (d : DState) (line : String) : DState × String :=
           if d.s.dead then false
           else match d.pol with
             | .c06 => decide (sp.2 ≠ o.r) || decide (sp.1 ≠ after)
-            | .c05 => (match req with | .close => d.s.kind == .per && decide (before ≠ after) | _ => false)
+            | .c05 => (match req with | .close => d.s.kind != .mem && decide (before ≠ after) | _ => false)
             | .c30 => false
         let tag := (o.tags.find? (· == Tag.u32delDeadlock)) <|> o.tags.head? <|> d.lastTag
         let lastTag := match o.tags.head? with | some t => some t | none => d.lastTag
